@@ -2,6 +2,7 @@
 from __future__ import annotations
 
 import hashlib
+import os
 import hmac as std_hmac
 import zlib
 import binascii
@@ -347,6 +348,29 @@ def run_mac(case, o: Oracle) -> None:
             o.eq("keystore", "enc_image_key", KeyStore.derive_enc_image_key(key), R.Aes(key).enc(b"\x01" + bytes(15)) + R.Aes(key).enc(b"\x02" + bytes(15)))
             o.eq("keystore", "sb_kek", KeyStore.derive_sb_kek_key(key), R.Aes(key).enc(b"\x03" + bytes(15)) + R.Aes(key).enc(b"\x04" + bytes(15)))
             o.eq("keystore", "otfad_kek", KeyStore.derive_otfad_kek_key(key, inp), R.Aes(key).enc(inp))
+        if key[0] % 4 == 0:
+            # `nxpimage sb21 get-sbkek -k <master key> -o <folder>`: the text file is the key as used for SB generation, the binary
+            # file the same bytes in key-store order (reversed), as the command's help and store_key's docstring say
+            import contextlib
+            import io
+            import shutil
+
+            from spsdk.apps.nxpimage import get_sbkek
+
+            want = R.Aes(key).enc(b"\x03" + bytes(15)) + R.Aes(key).enc(b"\x04" + bytes(15))
+            outdir = os.path.join(_WORK.get("dir") or ".", "sbkek-%d" % os.getpid())
+            shutil.rmtree(outdir, ignore_errors=True)
+            buf = io.StringIO()
+            with o.spsdk("keystore", "get_sbkek_cli"):
+                with contextlib.redirect_stdout(buf):
+                    get_sbkek(key.hex(), outdir)
+                o.check("keystore", ("SBKEK: " + want.hex()) in buf.getvalue(), "cli_stdout", buf.getvalue()[:200])
+                o.eq("keystore", "cli_sbkek_txt", open(os.path.join(outdir, "sbkek.txt")).read().strip().lower(), want.hex())
+                o.eq("keystore", "cli_sbkek_bin", open(os.path.join(outdir, "sbkek.bin"), "rb").read(), want[::-1])
+                o.eq("keystore", "cli_master_txt", open(os.path.join(outdir, "otp_master_key.txt")).read().strip().lower(), key.hex())
+                o.eq("keystore", "cli_master_bin", open(os.path.join(outdir, "otp_master_key.bin"), "rb").read(), key)
+            shutil.rmtree(outdir, ignore_errors=True)
+            o.label("keystore_cli")
         bl = case["badlen"]
         for fn in (KeyStore.derive_hmac_key, KeyStore.derive_enc_image_key, KeyStore.derive_sb_kek_key):
             o.raises("keystore", "bad_len", lambda f=fn: f(bytes(bl)), (SPSDKError,))
@@ -419,7 +443,11 @@ def run_counter(case, o: Oracle) -> None:
     o.key((order, wrapped, start is None, len(case["incs"]), hashlib.sha256(nonce + repr(case["incs"]).encode()).hexdigest()[:8]))
 
 
+_WORK: dict = {}
+
+
 def parts(ctx):
+    _WORK["dir"] = ctx.work
     return [
         HypPart("cipher", _cipher_case(), run_cipher, {"quick": 3500, "thorough": 200000}),
         HypPart("mac", _mac_case(), run_mac, {"quick": 3500, "thorough": 200000}),
